@@ -346,8 +346,33 @@ def stopHead : List Char → Bool
   | c :: _ => U c && c != '!'
   | [] => false
 
-/-- may `u` be written directly behind `t` inside a function? -/
+/-- the first code point of a lexeme that would continue a name or number: `-`, `_`, `\`, non-ASCII, digit, letter -/
+def nameStartByte (c : Char) : Bool :=
+  c == '-' || c == '_' || c == '\\' || c.toNat ≥ 0x80 || ('0' ≤ c && c ≤ '9') || ('a' ≤ c && c ≤ 'z') || ('A' ≤ c && c ≤ 'Z')
+
+/-- a pair of function arguments that would glue when written back to back and that a writer therefore has to
+    separate by a space (since a933f35 `writeFunction` does: `red` `10%`, `1` `.5`, `a` `(`, `1` `%`): an identifier,
+    hash, number, dimension or at-keyword in front of a lexeme that starts like a name or number, `(` behind an
+    identifier, `%` or `.`digit behind a number -/
+def gluePair (t u : Tok) : Bool :=
+  !t.data.isEmpty && !u.data.isEmpty &&
+  (t.tt == .ident || t.tt == .hash || t.tt == .number || t.tt == .dimension || t.tt == .atKeyword ||
+    t.tt == .customPropertyName) &&
+  u.tt != .whitespace &&
+  (if u.tt == .leftParen then t.tt == .ident
+   else if u.data.headD ' ' == '%' || u.data.headD ' ' == '.' then
+     t.tt == .number && (u.data.headD ' ' == '%' ||
+       (match u.data with | _ :: d :: _ => decide ('0' ≤ d) && decide (d ≤ '9') | _ => false))
+   else nameStartByte (u.data.headD ' '))
+
+/-- may `u` follow `t` inside a function?  Either nothing can go wrong when they are written back to back, or they
+    are a pair the writer separates by a space itself (`gluePair`) -/
 def sepOk (t u : Tok) : Bool :=
+  selfDelim t || (t.tt == .whitespace && u.tt != .whitespace) || (isPlain t.tt && stopHead u.data) || gluePair t u
+
+/-- the same without the pairs that only `writeFunction` separates: the raw path writes its components back to back
+    (it only keeps `/` and `*` apart) -/
+def sepSafe (t u : Tok) : Bool :=
   selfDelim t || (t.tt == .whitespace && u.tt != .whitespace) || (isPlain t.tt && stopHead u.data)
 
 /-- the one-byte lexemes of the punctuation tokens (lexer contract) -/
@@ -366,8 +391,9 @@ def punctOk (tt : TT) (data : List Char) : Bool :=
   | _ => true
 
 mutual
-/-- one value or function argument: its lexeme is a token of its type (`lexOk`), commas and delimiters have their
-    one-byte lexeme, white space (only inside functions) is the parser's single space, and the arguments of a
+/-- one value or function argument: its lexeme is a token of its type (`lexOk`) that does not end in a hexadecimal
+    escape without its terminating white space (the lexer includes it; implied by `lexOk`, stated for the writer's own
+    test), commas and delimiters have their one-byte lexeme, white space (only inside functions) is the parser's single space, and the arguments of a
     function are fine themselves and pairwise safe to write back to back -/
 def tokOk : Tok → Bool
   | .mk tt data args =>
@@ -375,7 +401,7 @@ def tokOk : Tok → Bool
     else if tt == .url then urlOk data
     else if tt == .string then lexOk .string data
     else if tt == .whitespace then data == [' ']
-    else isPlain tt && lexOk tt data && punctOk tt data
+    else isPlain tt && lexOk tt data && punctOk tt data && !Verif.Spec.CssValue.endsHexEsc data
 def argsOk : List Tok → Bool
   | [] => true
   | [t] => tokOk t
@@ -393,7 +419,7 @@ def rawTokOk (t : Tok) : Bool := tokOk (.mk t.tt t.data [])
 def rawOk : List Tok → Bool
   | [] => true
   | [t] => rawTokOk t
-  | t :: u :: r => rawTokOk t && sepOk t u && rawOk (u :: r)
+  | t :: u :: r => rawTokOk t && sepSafe t u && rawOk (u :: r)
 
 /-- the tokens one component stands for on the raw path -/
 def rawFlat (t : Tok) : List Token := if t.tt == .url then urlToks t.data else [(t.tt, t.data)]
